@@ -149,3 +149,102 @@ reg(Contract(
     ensures=[("fixed_point", _fixed_post)], canaries=[("first_pass_changes_nothing", lambda c: _same(c.st.ghost["snapshot"], c.st.ghost["entry"]))],
     label="proved-per-shape",
 ))
+
+
+# ------------------------------------------------------------------ the `current` block of setup_config: start fresh / continue / nothing left to do (C06, C17)
+def _current_block(fnode):
+    ifs = [n for n in fnode.body if isinstance(n, ast.If) and isinstance(n.test, ast.Compare) and ast.unparse(n.test) == "'current' in config"]
+    if len(ifs) != 1:
+        raise Unsupported("the `if 'current' in config:` statement of setup_config was not found exactly once")
+    mark = ast.parse("__fell_through__()").body[0]
+    ast.copy_location(mark, ifs[0])
+    ast.fix_missing_locations(mark)
+    return [ifs[0], mark]
+
+
+def _fell(ex, args, kwargs, st, node):
+    st.ghost = dict(st.ghost, fell_through=True)
+    yield st, None
+
+
+_fell.pyvc_callable = True
+IMPORTS["__fell_through__"] = _fell
+from pyvc.interp import ExtName  # noqa: E402
+
+IMPORTS["os"] = ExtName("os")
+ISFILE = z3.Function("isfile", INT, z3.BoolSort())
+TRAJTXT = z3.Function("traj_txt_of", INT, INT)
+
+
+def _join3(ex, st, bound, node):
+    # os.path.join(load_dir, str(act), "traj.txt"): the traj.txt of path number `act`
+    yield st, TRAJTXT(bound["b"]) if z3.is_expr(bound.get("b")) else fresh("joined", INT)
+
+
+def _strnum(ex, args, kwargs, st, node):
+    yield st, args[0]
+
+
+_strnum.pyvc_callable = True
+
+
+def _write_header(ex, st, bound, node):
+    st.ghost = dict(st.ghost, headers=st.ghost.get("headers", 0) + 1)
+    yield st, None
+
+
+reg(Contract("os.path.join", params=["a", "b", "c"], defaults={"c": None}, custom=_join3))
+reg(Contract("os.path.isfile", params=["p"], custom=lambda ex, st, b, node: iter([(st, ISFILE(b["p"]) if z3.is_expr(b["p"]) else fresh("isfile", z3.BoolSort()))])))
+reg(Contract("write_header", params=["config"], custom=_write_header))
+from pyvc.interp import FuncRef  # noqa: E402
+
+IMPORTS["write_header"] = FuncRef("infretis/classes/formatter.py", "write_header")
+IMPORTS["str"] = _strnum
+
+
+def _cur_make(kind, nact=3):
+    def make(ex, st):
+        cfg = {"simulation": {"interfaces": [fresh(f"i{k}", REAL) for k in range(3)], "load_dir": "load"}, "output": {}}
+        if kind != "fresh":
+            cur = {"cstep": fresh("cstep", INT), "active": [fresh(f"act{k}", INT) for k in range(nact)]}
+            if kind == "restarted_before":
+                cur["restarted_from"] = fresh("restarted_from", INT)
+            cfg["current"] = cur
+        st.ghost = dict(st.ghost, entry=_freeze(cfg))
+        return {"config": cfg}
+    return make
+
+
+def _cur_post(ctx):
+    g = ctx.st.ghost
+    entry = g["entry"]
+    cfg = ctx.v("config")
+    fell = bool(g.get("fell_through"))
+    out = []
+    if "current" not in entry:
+        cur = cfg.get("current", {})
+        n = len(entry["simulation"]["interfaces"])
+        out += [("fresh_start_continues", z3.BoolVal(fell)),
+                ("fresh_start_state", z3.BoolVal(cur.get("traj_num") == n and cur.get("cstep") == 0 and cur.get("active") == list(range(n)) and cur.get("locked") == [] and cur.get("size") == n and cur.get("frac") == {})),
+                ("data_file_header_written_once", z3.BoolVal(g.get("headers", 0) == 1))]
+        return out
+    ecur = entry["current"]
+    cstep = ecur["cstep"]
+    rf = ecur.get("restarted_from", z3.IntVal(-1))
+    done = cstep == rf
+    files = z3.And(*[ISFILE(TRAJTXT(a)) for a in ecur["active"]])
+    out += [("nothing_to_do_returns_None_exactly_when_cstep_equals_restarted_from", z3.Implies(done, z3.BoolVal(not fell))),
+            ("continues_exactly_when_work_is_left_and_every_active_path_is_on_disk", z3.Implies(z3.Not(done), z3.BoolVal(fell) == files)),
+            ("data_file_is_not_reinitialised_on_a_restart", z3.BoolVal(g.get("headers", 0) == 0))]
+    if fell:
+        out += [("restarted_from_becomes_the_current_step", _same(cfg["current"]["restarted_from"], cstep)),
+                ("step_counter_and_active_paths_untouched", z3.And(_same(cfg["current"]["cstep"], cstep), _same(cfg["current"]["active"], ecur["active"])))]
+    return out
+
+
+reg(Contract(
+    "setup_config#current", src=(SETUP_PY, "setup_config"), slice=_current_block,
+    cases=[Case("fresh", _cur_make("fresh")), Case("first_restart", _cur_make("first_restart")), Case("restarted_before", _cur_make("restarted_before")), Case("no_active_paths", _cur_make("first_restart", 0))],
+    ensures=[("current", _cur_post)], canaries=[("never_continues", lambda c: z3.BoolVal(not c.st.ghost.get("fell_through")))],
+    label="proved-per-shape",
+))
